@@ -47,8 +47,8 @@ _v = np.array([1.0, 2.0, 0.0, 1.0, 1.0])
 EMBED = (np.eye(NDIM) - 2 * np.outer(_v, _v) / (_v @ _v))[:, [0, 2, 3]]   # isometric embedding of C^3
 
 
-def consts(depth, record, variant="faithful", x0s=(False,), classes=CLASSES, givens=("none", "sym", "herm"), pool=POOL):
-    return dict(X0s=set(x0s), Classes=set(classes), Pool=pool, Givens=set(givens), Depth=depth, Record=record, Variant=variant)
+def consts(depth, record, variant="faithful", x0s=(False,), classes=CLASSES, givens=("none", "sym", "herm"), pool=POOL, trans=("N", "T", "H")):
+    return dict(TransSet=set(trans), X0s=set(x0s), Classes=set(classes), Pool=pool, Givens=set(givens), Depth=depth, Record=record, Variant=variant)
 
 
 def model_check(chk, depth, variant="faithful", expect_violation=False, props=PROPS):
@@ -59,10 +59,19 @@ def model_check(chk, depth, variant="faithful", expect_violation=False, props=PR
     return chk.tlc_must_hold(name, cfg, label="LDAS exhaustive depth %d" % depth, extra_modules={name: mod})
 
 
-def emit(depth, simulate=None, seed=0, givens=("none", "sym", "herm"), classes=CLASSES):
-    name, mod, cfg = tlc.mc("LDAS", consts(depth, True, x0s=(False, True), givens=givens, classes=classes), invariants=["Emit"])
-    return tlc.run(name, cfg, extra_modules={name: mod}, workers=1, simulate=simulate,
-                   depth=depth + 3 if simulate else None, seed=seed, timeout=3000)
+def emit(depth, simulate=None, seed=0, givens=("none", "sym", "herm"), classes=CLASSES, pool_idx=None, trans=("N", "T", "H"), x0s=(False, True)):
+    """pool_idx: 1-based indices into POOL for a focused (deeper) enumeration; the indices in the emitted behaviours are mapped back"""
+    pool = POOL if pool_idx is None else [POOL[i - 1] for i in pool_idx]
+    name, mod, cfg = tlc.mc("LDAS", consts(depth, True, x0s=x0s, givens=givens, classes=classes, pool=pool, trans=trans), invariants=["Emit"])
+    r = tlc.run(name, cfg, extra_modules={name: mod}, workers=1, simulate=simulate,
+                depth=depth + 3 if simulate else None, seed=seed, timeout=3000)
+    if pool_idx is not None:
+        for tag, v in r.printed:
+            if tag == "BEH":
+                for stp in v[0]["steps"]:
+                    if stp["op"] == "Solve":
+                        stp["args"][0] = pool_idx[stp["args"][0] - 1]
+    return r
 
 
 # ------------------------------------------------------------------------------------------------
@@ -309,6 +318,11 @@ def run(chk, replay_case=None, replay=None):
         if thorough:
             for c in CLASSES:
                 jobs.append(ex.submit(emit, 3, None, 0, ("none",), (c,)))
+        # focused deeper enumerations: non-symmetric classes, adjoint modes, zero / repeated / new right-hand sides, matrix updates
+        fdepth = 6 if thorough else 5
+        jobs.append(ex.submit(emit, fdepth, None, 0, ("none",), ("rg",), [1, 2, 8], ("N", "T"), (False,)))
+        jobs.append(ex.submit(emit, fdepth, None, 0, ("none",), ("cg",), [1, 6, 8], ("T", "H"), (False,)))
+        jobs.append(ex.submit(emit, fdepth, None, 0, ("none",), ("rs", "rg"), [1, 3, 8], ("T",), (False,)))
         nsim = 2500 if thorough else 100
         for j in range(12 if thorough else 8):
             jobs.append(ex.submit(emit, 8, nsim, chk.seed * 53 + j))
